@@ -12,7 +12,8 @@ import (
 // arbitrary bytes) and up to maxMeta arbitrary metadata entries (keys and values arbitrary
 // strings, including empty; entries with equal keys collapse as in any Go map).
 func symMessage(prefix string, maxMeta, maxPayload int) *Message {
-	m := NewMessage(vrt.Str(prefix+".uuid"), Payload(vrt.Bytes(prefix+".payload", maxPayload)))
+	m := NewMessage("", Payload(vrt.Bytes(prefix+".payload", maxPayload)))
+	m.UUID = vrt.Str(prefix + ".uuid") // any string, the empty one included (the field is public)
 	n := vrt.Int(prefix+".nmeta", 0, maxMeta)
 	direct := vrt.Bool(prefix + ".metadata.filled.directly") // map index assignment (as a decoder would) or Metadata.Set
 	for i := 0; i < n; i++ {
